@@ -661,8 +661,8 @@ class CliffordTableau(StabilizerState):
         prng = random_state.parse_random_state(seed)
         return [self._measure(axis, prng) for axis in axes]
 
-    @cached_method
     def __hash__(self) -> int:
+        # Not cached: apply_x, apply_cx, ... change the tableau in place.
         return hash(self.matrix().tobytes() + self.rs.tobytes())
 
     def __getstate__(self) -> dict[str, Any]:
